@@ -106,6 +106,22 @@ def main(tier):
             g = rnd.choice([3, 4, 6, 8])
             cases.append({"id": "%s_%d" % (kind, i), "kind": kind, "goroutines": g, "rounds": rnd.choice([3, 5, 8]),
                           "ops": 3 if g >= 6 else 5, "keys": ["k1", "k2", "k3"][:rnd.choice([2, 3])], "seed": sd * 1000 + i})
+    # one writer inserting new keys (on top / at the end) while two readers serialise the collection: no key twice,
+    # no inserted key missing
+    stress_cases = [{"id": "stress_%s_%d" % (kind, i), "kind": kind, "stress": 400 if thorough else 150, "seed": sd + i}
+                    for kind in ("Servers", "Tags", "UserRules") for i in range(6 if thorough else 3)]       # the kinds whose adapter can be serialised
+    sobs = harness("omap", stress_cases)
+    for c in stress_cases:
+        o = sobs[c["id"]]
+        chk.evaluations += 1
+        chk.traces += 1
+        chk.nontrivial.add(c["id"])
+        if o.get("panic") or o.get("dup_reads") or o.get("missing_reads"):
+            sig = {"what": "serialisation during insertions", "kind": o["kind"]}
+            chk.violation("collection %s serialised while new keys are inserted: %d of %d serialisations with a key twice, %d with an inserted key missing (%s) %s" % (
+                o["kind"], o.get("dup_reads", 0), o.get("reads", 0), o.get("missing_reads", 0), o.get("example", ""), o.get("panic", "")),
+                {"kind": "omap_stress", "case": c, "observed": o, "signature": sig}, sig)
+    chk.extra["serialisations_during_insertions"] = sum(sobs[c["id"]].get("reads", 0) for c in stress_cases)
     obs = harness("omap", cases)
     hist = [obs[c["id"]] for c in cases]
     for o in hist:
